@@ -3,7 +3,7 @@
    call-convention switches, native signatures). Re-checked on every run. *)
 From Coq Require Import List ZArith Bool String.
 From RG.Base Require Import Outcome GoInt GoSlice.
-From RG.Quasigo Require Import Source Bytecode Compile VM Sem Guards Link ExprCorrect StmtCorrect FunCorrect Assemble Correct Env.
+From RG.Quasigo Require Import Source Bytecode Compile VM Sem Guards Link ExprCorrect StmtCorrect FunCorrect Assemble Correct Encodable Env.
 From RGW Require Import Gen_Quasigo Inst_Quasigo.
 Import ListNotations.
 Local Open Scope Z_scope.
@@ -11,6 +11,10 @@ Local Open Scope Z_scope.
 (* ---- the configuration of the current tree satisfies what the proofs need ---- *)
 Theorem config_facts : forall names, config_ok (the_cfg names) = true /\ opnums_ok (the_cfg names) = true.
 Proof. intros names. split; vm_compute; reflexivity. Qed.
+
+(* a local slot index fits the 8-bit operand of the local instructions *)
+Theorem locals_fit : forall names, (max_locals (the_cfg names) <=? 256) = true.
+Proof. intros names. vm_compute. reflexivity. Qed.
 
 (* ---- compile_correct ---- *)
 (* Every function the compiler accepts, run by the VM on its compiled *bytes*, returns what the Go semantics of
@@ -24,6 +28,21 @@ Proof. intros names. exact (Correct.compile_correct_partial (the_cfg names)). Qe
 Theorem in_scope_is_program_guard : forall names p cs,
   in_scope (the_cfg names) p cs = prog_ok p && forallb code_encodable cs.
 Proof. intros. unfold in_scope. destruct (config_facts names) as [-> ->]. reflexivity. Qed.
+
+(* the operands of the code of an accepted function fit their 8/16-bit encoding: a consequence of compile success
+   (checked limits on constants, variadic lengths, jumps, parameters; maxFuncLocals) for sources whose native /
+   function IDs are table positions *)
+Theorem compile_fun_encodable : forall names f cf,
+  compile_fun (the_cfg names) f = COk cf -> ids_ok_fun f = true -> code_encodable cf = true.
+Proof. intros names f cf. apply Encodable.compile_fun_encodable. vm_compute. split; discriminate. Qed.
+
+(* compile_correct with a guard on the *source* program alone (nothing about the compiler's output is assumed) *)
+Theorem compile_correct_source_guard : forall names,
+  compile_correct_statement (the_cfg names) (fun p _ => source_guard (the_cfg names) p).
+Proof. intros names. exact (Encodable.compile_correct_source_guard (the_cfg names)). Qed.
+
+Theorem source_guard_is_program_guard : forall names p, source_guard (the_cfg names) p = prog_ok p && ids_ok p.
+Proof. intros. unfold source_guard. destruct (config_facts names) as [-> ->]. rewrite locals_fit. reflexivity. Qed.
 
 Theorem vm_frame_independent : forall names nat_fun p cs,
   compile_prog (the_cfg names) p = COk cs -> prog_ok p = true ->
@@ -53,7 +72,7 @@ Proof. intros names. exact (Env.load_units_inv (the_cfg names)). Qed.
    compiled earlier - run on its bytes against the function table as it is afterwards - still returns what its source
    means in Go, and fails when the Go run panics *)
 Theorem later_units_preserve_meaning : forall names nat_fun e us,
-  env_inv (the_cfg names) e -> in_scope (the_cfg names) (ev_srcs e) (ev_funcs e) = true ->
+  env_inv (the_cfg names) e -> source_guard (the_cfg names) (ev_srcs e) = true ->
   forall fuel id args cf, nthz (ev_funcs e) id = Some cf ->
     nthz (ev_funcs (load_units (the_cfg names) us e)) id = Some cf /\
     (forall r, call_sem (nat_sig (the_cfg names)) nat_fun (ev_srcs e) fuel id args = EOk r ->
@@ -84,6 +103,7 @@ Theorem unit_meaning_independent_of_history : forall names u e k ek n fd, NoDup 
 Proof. intros names. exact (Env.unit_meaning_independent_of_history (the_cfg names)). Qed.
 
 Print Assumptions compile_correct_partial.
+Print Assumptions compile_correct_source_guard.
 Print Assumptions later_units_preserve_meaning.
 Print Assumptions load_unit_binds_own_unit.
 Print Assumptions vm_frame_independent.
@@ -127,6 +147,9 @@ Definition go (cfg : config) (p : program) (id : Z) (args : list value) : eres (
 (* the hypotheses of the partial theorem are satisfiable by non-trivial programs, and the conclusion is observed *)
 Example in_scope_if : in_scope cfg0 w_if (compiled cfg0 w_if) = true /\
   go cfg0 w_if 0 [VInt 5] = EOk (Some (VInt 3)) /\ vm_bytes cfg0 w_if 0 [VInt 5] = RDone (mkres VNil 3).
+Proof. repeat split; vm_compute; reflexivity. Qed.
+
+Example source_guard_call : source_guard cfg0 w_call = true /\ source_guard cfg0 w_if = true /\ source_guard cfg0 w_logic = false.
 Proof. repeat split; vm_compute; reflexivity. Qed.
 
 Example in_scope_call : in_scope cfg0 w_call (compiled cfg0 w_call) = true /\
@@ -196,7 +219,7 @@ Definition vm_env (e : env) (id : Z) (args : list value) : runres :=
   end.
 
 Example history_in_scope :
-  env_inv cfg0 env_a /\ in_scope cfg0 (ev_srcs env_a) (ev_funcs env_a) = true /\
+  env_inv cfg0 env_a /\ source_guard cfg0 (ev_srcs env_a) = true /\
   List.length (ev_funcs env_a) = 2%nat /\ List.length (ev_funcs env_ab) = 4%nat /\
   (* a.go's filter means len(s) >= 3 ... *)
   call_sem (nat_sig cfg0) no_natives (ev_srcs env_a) 50 1 [VStr [97; 98; 99]] = EOk (Some (VBool true)) /\
